@@ -78,3 +78,28 @@ __CPROVER_ensures(!(NV_X_E->has != 0) ==> (nv_gk_src == 0 && nv_gk_writes == 0))
 __CPROVER_ensures(((NV_X_E->has != 0) && 0 <= nv_gk && nv_gk < NV_X_W.size) ==> (nv_gk_writes == 1 && nv_gk_src == NV_X_W.id && nv_gk_pos == nv_gk)) \
 __CPROVER_ensures(((NV_X_E->has != 0) && NV_X_W.size <= nv_gk && nv_gk < NV_X_W.size + NV_X_B.size) ==> (nv_gk_writes == 1 && nv_gk_src == NV_X_B.id && nv_gk_pos == nv_gk - NV_X_W.size)) \
 __CPROVER_ensures(((NV_X_E->has != 0) && !(0 <= nv_gk && nv_gk < NV_X_W.size + NV_X_B.size)) ==> (nv_gk_src == 0 && nv_gk_writes == 0))
+
+/* ================================================================================================ linear::function_t::function_t
+ * (src/linear/function.cpp): the objective REMEMBERS the iterator it was given and the two regularisation factors, each in its own
+ * member (m_l1reg <- l1reg, m_l2reg <- l2reg: what do_vgrad multiplies the L1 resp. squared L2 norm of the weights with, C09);
+ * smooth iff the loss is smooth and there is no L1 term.  (The dimension (isize + 1) * tsize and the strong-convexity constant l2 / (isize * tsize)
+ * are 64-bit products: not stated here -- CBMC does not decide equalities between multiplier circuits; only their overflow checks run.) */
+struct nv_fobj { const struct nv_fiter* m_iterator; const struct nv_opaque* m_loss; double m_l1reg, m_l2reg; int64_t m_isize, m_tsize;
+                 int64_t base_size; int32_t convex, smooth; double sconv; struct nv_opaque m_accumulators; };
+int64_t nv_f_isize, nv_f_tsize; _Bool nv_loss_convex, nv_loss_smooth;
+static int64_t nv_isize_of(const struct nv_fiter* it) { return nv_f_isize; }       /* ::isize(iterator) = dataset columns (opaque numerics) */
+static int64_t nv_tsize_of(const struct nv_fiter* it) { return nv_f_tsize; }
+static void nv_fobj_base(struct nv_fobj* self, int64_t size) { self->base_size = size; }
+static _Bool nv_loss_is_convex(const struct nv_opaque* l) { return nv_loss_convex; }
+static _Bool nv_loss_is_smooth(const struct nv_opaque* l) { return nv_loss_smooth; }
+static void nv_fobj_convex(struct nv_fobj* self, int32_t c) { self->convex = c; }
+static void nv_fobj_smooth(struct nv_fobj* self, int32_t s) { self->smooth = s; }
+static void nv_fobj_sconv(struct nv_fobj* self, double v) { self->sconv = v; }
+#define NV_FC_IT NV_ARG_lfunction_ctor_1
+#define NV_FC_L1 NV_ARG_lfunction_ctor_3
+#define NV_FC_L2 NV_ARG_lfunction_ctor_4
+#define NV_CONTRACT_lfunction_ctor \
+__CPROVER_requires(__CPROVER_is_fresh(self, sizeof(*self)) && NV_LT_FRESH(NV_FC_IT) && 1 <= nv_f_isize && nv_f_isize <= 1000000 && 1 <= nv_f_tsize && nv_f_tsize <= 1000000) \
+__CPROVER_assigns(*self) \
+__CPROVER_ensures(self->m_iterator == NV_FC_IT && NV_IDENT(self->m_l1reg, NV_FC_L1) && NV_IDENT(self->m_l2reg, NV_FC_L2) && self->m_isize == nv_f_isize && self->m_tsize == nv_f_tsize) \
+__CPROVER_ensures((self->smooth == NVE_smoothness_yes) == ((nv_loss_smooth != 0) && NV_FC_L1 <= 0.0) && (self->convex == NVE_convexity_yes) == (nv_loss_convex != 0))
